@@ -1,8 +1,11 @@
 (* C09 — model of esutil/coords.py: euler and its six wrappers, eq2sdss/sdss2eq, eq2xyz/xyz2eq,
    rotate, atbound/atbound2 (style R: Coq reals) and shiftlon/shiftra (style Q: exact rationals).
-   Definitions only; constants come from the generated Gen.v.  The code modelled is the tree with
-   the C09 fixes (latitudes by arctan2 of the rotated vector's components; shiftlon's `>= 360`;
-   xyz2eq wrapping by 2*pi in radians). *)
+   Definitions only; constants AND the shape flags (latitude by arctan2 or by arcsin, radian wrap of
+   xyz2eq, comparison operators and second wrap of shiftlon) come from Gen.v, which is regenerated
+   from the esutil/coords.py under test on every run.  With the flags of the repaired tree the
+   latitudes are arctan2 of the rotated vector's components, shiftlon compares `>= 360`, xyz2eq
+   wraps by 2*pi in radians; with the flags of the as-found tree the definitions below describe the
+   as-found code (arcsin, clipped only from above in euler/rotate), and the proofs do not go through. *)
 From Coq Require Import Reals QArith Qround Qabs List.
 From EsVerif.Common Require Import Base.
 From EsVerif.C09 Require Import Gen.
@@ -69,6 +72,10 @@ Definition fourpi : R := 4 * PI.
 (* latitude and longitude of a vector as every fixed routine extracts them *)
 Definition lat_of (v : vec) : R := atan2 (vz v) (sqrt (vx v * vx v + vy v * vy v)).
 Definition lon_of (v : vec) : R := atan2 (vy v) (vx v).
+(* the latitude as the code under test computes it: arctan2 (flag true) or arcsin of the third
+   component, clipped from above only (euler, rotate) or not at all *)
+Definition lat_by (atan2_flag clip : bool) (v : vec) : R :=
+  if atan2_flag then lat_of v else asin (if clip then Rmin (vz v) 1 else vz v).
 
 (* atbound: `while x < lo: x += 360` then `while x > hi: x -= 360`; loops unrolled [fuel] times
    (the theorems show the exit conditions hold, i.e. the fuel sufficed) *)
@@ -112,12 +119,13 @@ Definition euler_xyz (r : row) (ai bi : R) : vec :=
   (cb * cos a, r_ct r * cbsa + r_st r * sb, - r_st r * cbsa + r_ct r * sb).
 
 (* (long_out, lat_out) in degrees, as coded *)
-Definition euler_R (r : row) (ai bi : R) : R * R :=
+Definition euler_R_gen (lat_atan2 : bool) (r : row) (ai bi : R) : R * R :=
   let v := euler_xyz r ai bi in
-  let bo := lat_of v * R2D in
+  let bo := lat_by lat_atan2 true v * R2D in
   let a := lon_of v in
   let ao := Rmod (a + r_psi r + fourpi) twopi * R2D in
   (ao, bo).
+Definition euler_R : row -> R -> R -> R * R := euler_R_gen euler_lat_atan2.
 
 (* the same map on vectors: a linear map of the input direction *)
 Definition euler_lin (r : row) (u : vec) : vec := Rz (r_psi r) (Rx_sc (r_st r) (r_ct r) (Rz (- r_phi r) u)).
@@ -162,7 +170,8 @@ Definition doc_row (sel : nat) : row :=
 (* ---------------------------------------------------------------- rotate (zxz, degrees) *)
 Definition rotate_row (phi theta psi : R) : row :=
   (- psi * D2R, sin (- theta * D2R), cos (- theta * D2R), - phi * D2R).
-Definition rotate_R (phi theta psi ra dec : R) : R * R := euler_R (rotate_row phi theta psi) ra dec.
+Definition rotate_R (phi theta psi ra dec : R) : R * R :=
+  euler_R_gen rotate_lat_atan2 (rotate_row phi theta psi) ra dec.
 Definition rotate_vec (phi theta psi ra dec : R) : vec := euler_vec (rotate_row phi theta psi) ra dec.
 
 (* ---------------------------------------------------------------- unit vectors *)
@@ -175,11 +184,13 @@ Definition eq2xyz_R (deg stomp : bool) (ra dec : R) : vec :=
   (cos theta * cos phi, sin theta * cos phi, sin phi).
 
 (* xyz2eq(x, y, z, units, stomp) *)
-Definition xyz2eq_R (deg stomp : bool) (v : vec) : R * R :=
-  let phi := lat_of v in
+Definition xyz2eq_R_gen (lat_atan2 rad_wrap : bool) (deg stomp : bool) (v : vec) : R * R :=
+  let phi := lat_by lat_atan2 false v in
   let theta := lon_of v + (if stomp then sdss_node else 0) in
   if deg then (atbound atb_fuel (theta * R2D) xyz2eq_atbound, phi * R2D)
-  else ((if Rlt_dec theta 0 then theta + 2 * PI else theta), phi).
+  else ((if rad_wrap then (if Rlt_dec theta 0 then theta + 2 * PI else theta)
+         else atbound atb_fuel theta xyz2eq_atbound), phi).
+Definition xyz2eq_R : bool -> bool -> vec -> R * R := xyz2eq_R_gen xyz2eq_lat_atan2 xyz2eq_rad_wrap_2pi.
 
 (* ---------------------------------------------------------------- SDSS survey coordinates *)
 Definition in_range (x : R) (b : R * R) : bool :=
@@ -194,24 +205,26 @@ Definition eq2sdss_xyz (ra dec : R) : vec :=
   let dec' := dec * D2R in
   (cos ra' * cos dec', sin ra' * cos dec', sin dec').
 
-Definition eq2sdss_R (ra dec : R) : result (R * R) :=
+Definition eq2sdss_R_gen (lat_atan2 : bool) (ra dec : R) : result (R * R) :=
   if negb (in_range ra eq2sdss_range1) then Err EValue
   else if negb (in_range dec eq2sdss_range2) then Err EValue
   else
     let v := eq2sdss_xyz ra dec in
-    let clambda := - atan2 (vx v) (sqrt (vy v * vy v + vz v * vz v)) in
+    let clambda := - (if lat_atan2 then atan2 (vx v) (sqrt (vy v * vy v + vz v * vz v)) else asin (vx v)) in
     let ceta := atan2 (vz v) (vy v) - sdss_etapole in
     Ok (clambda * R2D, atbound atb_fuel (ceta * R2D) eq2sdss_atbound).
+Definition eq2sdss_R : R -> R -> result (R * R) := eq2sdss_R_gen eq2sdss_lat_atan2.
 
-Definition sdss2eq_R (clambda ceta : R) : result (R * R) :=
+Definition sdss2eq_R_gen (lat_atan2 : bool) (clambda ceta : R) : result (R * R) :=
   if negb (in_range clambda sdss2eq_range1) then Err EValue
   else if negb (in_range ceta sdss2eq_range2) then Err EValue
   else
     let v := sdss_unit (clambda * D2R) (ceta * D2R) in
     let ra := lon_of v + sdss_node in
-    let dec := lat_of v in
+    let dec := lat_by lat_atan2 false v in
     let '(dec, ra) := atbound2 (dec * R2D) (ra * R2D) in
     Ok (ra, dec).
+Definition sdss2eq_R : R -> R -> result (R * R) := sdss2eq_R_gen sdss2eq_lat_atan2.
 
 (* ---------------------------------------------------------------- shiftlon / shiftra (exact, Q) *)
 Open Scope Q_scope.
@@ -239,7 +252,13 @@ Definition shiftlon (lon : Q) (shift : option Q) (wrap : bool) : Q :=
         if qcmp shift_neg_cmp l shift_neg_thr then l - shift_neg_period else l
       else
         let l := lon - abs_shift in
-        if qcmp shift_pos_cmp l shift_pos_thr then l + shift_pos_period else l
+        if qcmp shift_pos_cmp l shift_pos_thr then
+          let l := l + shift_pos_period in
+          match shift_pos_rewrap with
+          | Some (c, t, p) => if qcmp c l t then l - p else l
+          | None => l
+          end
+        else l
   | None =>
       if wrap then (if qcmp wrap_cmp lon wrap_thr then lon - wrap_period else lon) else lon
   end.
